@@ -295,6 +295,12 @@ func (r *DenseInt64Matrix) MdotM(a, b ConstMatrix) Matrix {
   }
   t1 := int64(0)
   t2 := int64(0)
+  if r.storageLocation() == b.storageLocation() &&
+     r.storageLocation() == a.storageLocation() {
+    // r is both factors: the column-wise schedule below would overwrite
+    // columns of a that are still needed
+    a = a.CloneConstMatrix()
+  }
   if r.storageLocation() == b.storageLocation() {
     t3 := make([]int64, n)
     for j := 0; j < m; j++ {
@@ -337,6 +343,12 @@ func (r *DenseInt64Matrix) MDOTM(a, b *DenseInt64Matrix) Matrix {
   }
   t1 := int64(0)
   t2 := int64(0)
+  if r.storageLocation() == b.storageLocation() &&
+     r.storageLocation() == a.storageLocation() {
+    // r is both factors: the column-wise schedule below would overwrite
+    // columns of a that are still needed
+    a = a.Clone()
+  }
   if r.storageLocation() == b.storageLocation() {
     t3 := make([]int64, n)
     for j := 0; j < m; j++ {
